@@ -60,10 +60,10 @@ def run(ck):
     hm = ck.repo.mod(H)
     cls = m.cls("TranslatorSMT2")
     fn = m.func("TranslatorSMT2.from_ExprOp")
-    ck.rule("R1", "each operator is translated to the SMT-LIB symbol of its reference meaning; composites match the reference skeleton", floor=22)
-    ck.rule("R2", "every Expr class is translated; slice/compose/cond shapes", floor=12)
-    ck.rule("R3", "memory bytes are addressed and concatenated in the configured byte order", floor=3)
-    ck.rule("TC", "the translation memo table is private to the translator object, keyed by the expression itself, and filled by the class's own handler", floor=4)
+    ck.rule("R1", "each operator is translated to the SMT-LIB symbol of its reference meaning; composites match the reference skeleton", floor=14)
+    ck.rule("R2", "every Expr class is translated; slice/compose/cond shapes", floor=6)
+    ck.rule("R3", "memory bytes are addressed and concatenated in the configured byte order", floor=1)
+    ck.rule("TC", "the translation memo table is private to the translator object, keyed by the expression itself, and filled by the class's own handler", floor=2)
     from rules._transcache import translator_cache_rules
     translator_cache_rules(ck, "TC")
 
